@@ -195,6 +195,30 @@ class ExprMixin(EngineBase):
             return
         raise Unsupported("dict display with non-constant keys", e)
 
+    def eval_DictComp(self, e: ast.DictComp, st: State, ctx: Ctx) -> Res:
+        """only the dispatch-table idiom `{t: getattr(self, name) for t, name in self.<TABLE>.items()}`: the result is the
+        `handlers` object of pyvc.models.HandlersModel (lookups resolve through the class-level table to bound methods)"""
+        ok = (len(e.generators) == 1 and not e.generators[0].ifs and isinstance(e.generators[0].target, ast.Tuple)
+              and len(e.generators[0].target.elts) == 2 and all(isinstance(x, ast.Name) for x in e.generators[0].target.elts))
+        if ok:
+            t, name = (x.id for x in e.generators[0].target.elts)   # type: ignore[attr-defined]
+            it = e.generators[0].iter
+            ok = (isinstance(e.key, ast.Name) and e.key.id == t and isinstance(e.value, ast.Call)
+                  and isinstance(e.value.func, ast.Name) and e.value.func.id == "getattr" and len(e.value.args) == 2
+                  and isinstance(e.value.args[0], ast.Name) and e.value.args[0].id == "self"
+                  and isinstance(e.value.args[1], ast.Name) and e.value.args[1].id == name
+                  and isinstance(it, ast.Call) and isinstance(it.func, ast.Attribute) and it.func.attr == "items" and not it.args
+                  and isinstance(it.func.value, ast.Attribute) and isinstance(it.func.value.value, ast.Name)
+                  and it.func.value.value.id == "self")
+        if not ok:
+            raise Unsupported("dict comprehension (only the handler-table idiom is modelled)", e)
+        table = e.generators[0].iter.func.value.attr   # type: ignore[attr-defined]
+        owner = st.locals.get("self")
+        if not isinstance(owner, Ref) or st.obj(owner).cls.find_class_attr(table) is None:
+            raise Unsupported(f"handler table {table} not found on the class of self", e)
+        st2, r = self.alloc(st, "handlers", "dict", table=table, owner=None)
+        yield st2, r
+
     def eval_IfExp(self, e: ast.IfExp, st: State, ctx: Ctx) -> Res:
         for st1, c in self.eval(e.test, st, ctx):
             if isinstance(c, Raised):
@@ -466,6 +490,10 @@ class ExprMixin(EngineBase):
             ci = v.info
             found = ci.find_class_attr(attr)
             if found is not None:
+                if "Enum" in found[0].external_bases():
+                    # a member of an enum.Enum subclass: a constant identified by its name (only identity is used)
+                    yield st, ExtVal(f"enum:{found[0].key}.{attr}")
+                    return
                 yield st, self.eval_const_expr(found[1], found[0].module, node)
                 return
             mth = ci.find_method(attr)
